@@ -31,14 +31,14 @@ const (
 
 type state struct {
 	mu          sync.Mutex
-	Evaluations int64            `json:"evaluations"`
-	Nontrivial  int64            `json:"nontrivial"`
-	Labels      map[string]int64 `json:"labels"`
-	Notes       map[string]int64 `json:"notes"`
-	Known       map[string]int64 `json:"known"`      // signature -> times hit
+	Evaluations int64             `json:"evaluations"`
+	Nontrivial  int64             `json:"nontrivial"`
+	Labels      map[string]int64  `json:"labels"`
+	Notes       map[string]int64  `json:"notes"`
+	Known       map[string]int64  `json:"known"`      // signature -> times hit
 	KnownWhat   map[string]string `json:"known_what"` // signature -> description
-	Samples     []string         `json:"samples"`
-	Hashes      []uint64         `json:"hashes"` // distinct non-trivial case hashes
+	Samples     []string          `json:"samples"`
+	Hashes      []uint64          `json:"hashes"` // distinct non-trivial case hashes
 	seen        map[uint64]struct{}
 }
 
